@@ -56,8 +56,9 @@ static void judge(const World &w, Avoid::Router *live, const vector<Avoid::ConnR
     // (overlapping: KF-C03-1; touching: coincident corners of two routing polygons, the through_vertex degeneracy of KF-C03-2/KF-C06-1), and a connector with an end strictly inside a routing polygon is not judged (an end exactly ON its border is)
     if (g_buf) for (size_t i = 0; i < w.shapes.size(); i++) for (size_t j = i + 1; j < w.shapes.size(); j++) if (w.shapes[i].alive && w.shapes[j].alive) { const Rc &P = w.shapes[i], &Q = w.shapes[j];
         if (!(2 * P.x1 + g_buf < 2 * Q.x0 - g_buf || 2 * Q.x1 + g_buf < 2 * P.x0 - g_buf || 2 * P.y1 + g_buf < 2 * Q.y0 - g_buf || 2 * Q.y1 + g_buf < 2 * P.y0 - g_buf)) { ctx.count("skipped_overlapping_routing_polygons"); return; } }
-    vector<char> epIn(w.conns.size(), 0);   // connectors with an endpoint in a closed shape of the final scene are not judged
-    for (size_t k = 0; k < w.conns.size(); k++) for (auto &s : w.shapes) if (s.alive) for (int q = 0; q < 2; q++) { const Ep &c = w.conns[k]; if (q == 0 && c.a0 >= 0) continue; int x = q ? c.x1 : c.x0, y = q ? c.y1 : c.y0; if (x >= s.x0 && x <= s.x1 && y >= s.y0 && y <= s.y1) epIn[k] = 1; if (g_buf && 2 * x > 2 * s.x0 - g_buf && 2 * x < 2 * s.x1 + g_buf && 2 * y > 2 * s.y0 - g_buf && 2 * y < 2 * s.y1 + g_buf) epIn[k] = 1; }
+    vector<char> epIn(w.conns.size(), 0);   // connectors with an endpoint ON THE BORDER of a shape of the final scene are not judged (nor, with a buffer, inside a routing polygon)
+    vector<unsigned> encl(w.conns.size(), 0);   // shapes that STRICTLY contain an endpoint of the connector: no obstacles for it (C03's reading); the connector is judged like any other
+    for (size_t k = 0; k < w.conns.size(); k++) for (auto &s : w.shapes) if (s.alive) for (int q = 0; q < 2; q++) { const Ep &c = w.conns[k]; if (q == 0 && c.a0 >= 0) continue; int x = q ? c.x1 : c.x0, y = q ? c.y1 : c.y0; if (!g_buf && x > s.x0 && x < s.x1 && y > s.y0 && y < s.y1) encl[k] |= 1u << (&s - &w.shapes[0]); else if (x >= s.x0 && x <= s.x1 && y >= s.y0 && y <= s.y1) epIn[k] = 1; if (g_buf && 2 * x > 2 * s.x0 - g_buf && 2 * x < 2 * s.x1 + g_buf && 2 * y > 2 * s.y0 - g_buf && 2 * y < 2 * s.y1 + g_buf) epIn[k] = 1; }
     Avoid::Router *f = mk(ortho, true); vector<Avoid::ShapeRef *> fsh; for (auto &s : w.shapes) fsh.push_back(s.alive ? mk_shape(f, s) : nullptr);
     vector<Avoid::ConnRef *> fc; for (auto &c : w.conns) fc.push_back(new Avoid::ConnRef(f, src_end(c, fsh), Avoid::ConnEnd(Avoid::Point(c.x1 * S, c.y1 * S))));
     f->processTransaction();
@@ -82,6 +83,7 @@ static void judge(const World &w, Avoid::Router *live, const vector<Avoid::ConnR
         if (di.size() < 2 || di.ps[0].x != ex0 || di.ps[0].y != ey0 || di.ps[di.size() - 1].x != w.conns[k].x1 * S || di.ps[di.size() - 1].y != w.conns[k].y1 * S) ctx.violation("endpoints_wrong", {}, desc, obs);
         for (size_t q = 1; q < di.size(); q++) for (auto &s : w.shapes) if (s.alive) {
             if (ck.a0 >= 0 && &s == &w.shapes[ck.a0]) continue;   // the shape the connector is attached to contains its end
+            if (encl[k] >> (&s - &w.shapes[0]) & 1) continue;   // ... and so does a shape that strictly contains a free end
             Poly p = rect(s.x0 * S, s.y0 * S, s.x1 * S, s.y1 * S);
             if (hitsInteriorD(p, di.ps[q - 1].x, di.ps[q - 1].y, di.ps[q].x, di.ps[q].y, 1e-6)) {
                 invalid = true;
@@ -105,12 +107,13 @@ static void judge(const World &w, Avoid::Router *live, const vector<Avoid::ConnR
             }
         }
         // is the fresh route itself valid?  (if not, a free path may not exist and nothing is demanded)
-        bool freshInvalid = false; for (size_t q = 1; q < fc[k]->displayRoute().size(); q++) for (auto &s : w.shapes) if (s.alive && !(ck.a0 >= 0 && &s == &w.shapes[ck.a0])) { Poly p = rect(s.x0 * S, s.y0 * S, s.x1 * S, s.y1 * S); const Avoid::PolyLine &fr = fc[k]->displayRoute(); if (hitsInteriorD(p, fr.ps[q - 1].x, fr.ps[q - 1].y, fr.ps[q].x, fr.ps[q].y, 1e-6)) freshInvalid = true; }
+        bool freshInvalid = false; for (size_t q = 1; q < fc[k]->displayRoute().size(); q++) for (auto &s : w.shapes) if (s.alive && !(ck.a0 >= 0 && &s == &w.shapes[ck.a0]) && !(encl[k] >> (&s - &w.shapes[0]) & 1)) { Poly p = rect(s.x0 * S, s.y0 * S, s.x1 * S, s.y1 * S); const Avoid::PolyLine &fr = fc[k]->displayRoute(); if (hitsInteriorD(p, fr.ps[q - 1].x, fr.ps[q - 1].y, fr.ps[q].x, fr.ps[q].y, 1e-6)) freshInvalid = true; }
         // Whether a free path exists is decided by the exact visibility graph (polyline); the fresh router's own
         // validity is only a proxy and is used for orthogonal mode.  (A fresh router can be wrong too: shapes are
         // added one after the other inside its single transaction.)
         bool pathExists = !freshInvalid;
-        if (!ortho && ck.a0 < 0) { vector<Poly> sc; for (auto &sh : w.shapes) if (sh.alive) sc.push_back(rect(sh.x0, sh.y0, sh.x1, sh.y1)); VisGraph vg(sc, P{w.conns[k].x0, w.conns[k].y0}, P{w.conns[k].x1, w.conns[k].y1}); pathExists = vg.reachable(); if (freshInvalid && pathExists) ctx.count("fresh_route_invalid_although_path_exists"); }
+        if (encl[k]) ctx.count("judged_with_an_end_strictly_inside_a_shape");
+        if (!ortho && ck.a0 < 0 && !encl[k]) { vector<Poly> sc; for (auto &sh : w.shapes) if (sh.alive) sc.push_back(rect(sh.x0, sh.y0, sh.x1, sh.y1)); VisGraph vg(sc, P{w.conns[k].x0, w.conns[k].y0}, P{w.conns[k].x1, w.conns[k].y1}); pathExists = vg.reachable(); if (freshInvalid && pathExists) ctx.count("fresh_route_invalid_although_path_exists"); }
         if (!pathExists) { ctx.count("no_free_path"); continue; }
         if (freshInvalid && !invalid) { ctx.count("fresh_invalid_incremental_valid"); continue; }
         if (invalid) { vector<string> kc; if (throughVertex && !ortho) kc.push_back("through_vertex"); if (chordNewer && !ortho) kc.push_back("chord_from_newer_vertex"); if (epOnRoutingBorder) kc.push_back("routing_polygon_chord_or_vertex"); ctx.violation("route_invalid_after_history", kc, desc, obs); continue; }
@@ -119,7 +122,7 @@ static void judge(const World &w, Avoid::Router *live, const vector<Avoid::ConnR
         if (ci > cf + 1e-6) ctx.violation("costlier_than_fresh", epOnRoutingBorder ? vector<string>{"routing_polygon_chord_or_vertex"} : vector<string>{}, desc, mcx::fmt("incremental cost %.9g fresh %.9g; ", ci, cf) + obs);
         if (fabs(ci - cf) > 1e-6) ctx.count("differs_from_fresh");
         // (ii') polyline, no buffer: the exact Euclidean shortest path over the visibility graph of the final scene (the C04 oracle) -- independent of the fresh router
-        if (!ortho && !g_buf && ck.a0 < 0) { vector<Poly> sc; for (auto &sh : w.shapes) if (sh.alive) sc.push_back(rect(sh.x0, sh.y0, sh.x1, sh.y1)); VisGraph vg(sc, P{ck.x0, ck.y0}, P{ck.x1, ck.y1}); double ex = vg.shortest(0, false) * S;
+        if (!ortho && !g_buf && ck.a0 < 0 && !encl[k]) { vector<Poly> sc; for (auto &sh : w.shapes) if (sh.alive) sc.push_back(rect(sh.x0, sh.y0, sh.x1, sh.y1)); VisGraph vg(sc, P{ck.x0, ck.y0}, P{ck.x1, ck.y1}); double ex = vg.shortest(0, false) * S;
             ctx.count("exact_shortest_path_checks"); if (ex < 1e17 && ci > ex + 1e-6 && !(ci > cf + 1e-6)) ctx.violation("longer_than_shortest_path", {}, desc, mcx::fmt("incremental cost %.9g exact shortest %.9g fresh %.9g; ", ci, ex, cf) + obs); }
     }
     delete f;
